@@ -72,6 +72,7 @@ type vfCfg struct {
 	// that state is OBSERVED before the call and reported: cached leader, memoised proxy, stale store epochs, load estimates
 	// (plus lv / sl above).
 	pre string
+	nx  bool // another call on the same cached region follows (the model's end-of-call cache state is compared with what it finds)
 	olv [3]byte // observed liveness / slow marks before this call (lv / sl stay the initial setting of the first call, for replay)
 	osl [3]bool
 	ld  int
@@ -104,10 +105,10 @@ func (c vfCfg) String() string {
 	if c.label >= 0 {
 		lb = strconv.Itoa(c.label)
 	}
-	return fmt.Sprintf("rt=%c,st=%s,rd=%s,lb=%s,lo=%s,lv=%s,sl=%s%s%s,thr=%s,to=%s,ms=%d,val=%s,lr=%s,fw=%s,cmd=%d,inv=%s,tp=%c,cx=%s,kl=%s,ir=%s,as=%s,ld=%d,px=%d,es=%s%s%s,be=%s%s%s,olv=%s,osl=%s%s%s,pre=%s",
+	return fmt.Sprintf("rt=%c,st=%s,rd=%s,lb=%s,lo=%s,lv=%s,sl=%s%s%s,thr=%s,to=%s,ms=%d,val=%s,lr=%s,fw=%s,cmd=%d,inv=%s,tp=%c,cx=%s,kl=%s,ir=%s,as=%s,ld=%d,px=%d,es=%s%s%s,be=%s%s%s,olv=%s,osl=%s%s%s,nx=%s,pre=%s",
 		c.rt, b01(c.stale), b01(c.read), lb, b01(c.leaderOnly), string(c.live[:]), b01(c.slow[0]), b01(c.slow[1]), b01(c.slow[2]),
 		b01(c.thr), b01(c.shortTO), c.ms, b01(c.val), b01(c.learner), b01(c.fw), c.cmd, b01(c.inv), c.tp, c.cx, c.kl, b01(c.cmd == 0 || vfInterruptible(tikvrpc.CmdType(c.cmd))), b01(c.async),
-		c.ld, c.px, b01(c.es[0]), b01(c.es[1]), b01(c.es[2]), b01(c.be[0]), b01(c.be[1]), b01(c.be[2]), string(c.olv[:]), b01(c.osl[0]), b01(c.osl[1]), b01(c.osl[2]), c.pre)
+		c.ld, c.px, b01(c.es[0]), b01(c.es[1]), b01(c.es[2]), b01(c.be[0]), b01(c.be[1]), b01(c.be[2]), string(c.olv[:]), b01(c.osl[0]), b01(c.osl[1]), b01(c.osl[2]), b01(c.nx), c.pre)
 }
 
 func vfParseCfg(s string) vfCfg {
@@ -586,6 +587,7 @@ var vfKindName = map[string]string{"tikvRPC": "rpc", "regionMiss": "miss", "regi
 	"tikvDiskFull": "disk", "maxTsNotSynced": "maxts"}
 
 type vfRes struct {
+	preLines []string
 	result string
 	line   string
 	oracle string
@@ -600,14 +602,26 @@ func (f *vfFix) run(c vfCfg, script []string) vfRes {
 		// a sequence of calls on the same cached region: the earlier ones first, without resetting in between
 		p := c
 		p.pre = "-"
+		p.nx = true
+		var preLines []string
 		for k, ps := range strings.Split(c.pre, "/") {
 			var sc []string
 			if ps != "-" && ps != "" {
 				sc = strings.Split(ps, "+")
 			}
-			f.run1(p, sc, k == 0, true)
+			// the earlier calls are reported too (each is a replayable case of its own): the model predicts the cache
+			// state each of them leaves, which is compared with the state observed before the next call
+			pr := f.run1(p, sc, k == 0, true)
+			preLines = append(preLines, pr.line)
+			if k == 0 {
+				p.pre = ps
+			} else {
+				p.pre = p.pre + "/" + ps
+			}
 		}
-		return f.run1(c, script, false, false)
+		res := f.run1(c, script, false, false)
+		res.preLines = preLines
+		return res
 	}
 	return f.run1(c, script, true, false)
 }
@@ -975,6 +989,7 @@ type vfGen struct {
 	n        int
 	nfail    int
 	asyncMax int // scripts up to this length are also run through SendReqAsync (-1: none)
+	noPre    bool // batch / replay modes: one output line per requested case (the earlier calls of a sequence are not reported)
 }
 
 func (g *vfGen) emit(c vfCfg, script []string) vfRes {
@@ -986,6 +1001,13 @@ func (g *vfGen) emit(c vfCfg, script []string) vfRes {
 		// "no replica available" before any attempt is legitimate (e.g. all stores unreachable) but could also be a
 		// fixture hiccup (region not valid when the call started): run again and keep the repeated observation.
 		res = g.f.run(c, script)
+	}
+	for _, pl := range res.preLines {
+		if g.noPre {
+			break
+		}
+		g.out.WriteString(pl)
+		g.out.WriteByte('\n')
 	}
 	g.out.WriteString(res.line)
 	g.out.WriteByte('\n')
@@ -1176,6 +1198,7 @@ func VerifSendReqMain(args []string) int {
 		return 0
 	}
 	if len(args) >= 1 && (args[0] == "batch" || args[0] == "minbatch") {
+		g.noPre = true
 		// stdin: cfg <TAB> script per line; batch: run each; minbatch: greedily shrink the script while the
 		// attempt-bound oracle keeps failing, then print the run of the shrunk script
 		sc := bufio.NewScanner(os.Stdin)
@@ -1214,7 +1237,7 @@ func VerifSendReqMain(args []string) int {
 	if v := os.Getenv("VERIF_C10_LA"); v != "" {
 		LA, _ = strconv.Atoi(v)
 	}
-	g.asyncMax = 3
+	g.asyncMax = 2
 	if thorough {
 		g.asyncMax = 4
 	}
@@ -1268,7 +1291,7 @@ func VerifSendReqMain(args []string) int {
 			}
 			return o
 		}
-		s1 := []string{"Eu", "Er", "Ek", "N1", "N2", "SC", "UK", "B0", "DN", "NL"}
+		s1 := []string{"Eu", "Er", "Ek", "N1", "N2", "SC", "UK", "B0", "B1", "DN", "NL"}
 		var firsts []string
 		firsts = append(firsts, "-")
 		for _, a := range s1 {
@@ -1284,10 +1307,18 @@ func VerifSendReqMain(args []string) int {
 		}
 		lasts = append(lasts, rp([]string{"SC"}, 40), rp([]string{"UK"}, 40), rp([]string{"DN"}, 40), []string{"Eu", "Eu", "Eu"},
 			rp([]string{"N1", "N0"}, 20), rp([]string{"SC", "Eu"}, 10), rp([]string{"Er"}, 12), rp([]string{"B0"}, 12))
-		for _, rd := range []bool{true, false} {
+		type sv struct {
+			fw  bool
+			rt  byte
+			rd  bool
+			thr bool
+		}
+		for _, v := range []sv{{true, 'L', true, false}, {true, 'L', false, false}, {false, 'L', true, true}, {false, 'L', false, false}, {false, 'M', true, false}} {
 			c := vfDefaultCfg()
-			c.fw = true
-			c.read = rd
+			c.fw = v.fw
+			c.rt = v.rt
+			c.read = v.rd
+			c.thr = v.thr
 			for _, p1 := range firsts {
 				for _, l := range lasts {
 					d := c
